@@ -318,7 +318,12 @@ func propC13(r *Run) {
 			if err != nil {
 				r.Fail("encode/format", "Marshal of clipped fields failed: %v", err)
 			}
-			cases = append(cases, "E "+hexs([]byte(u))+" "+hexs([]byte(p)))
+			// the socket may take only part of each write: the bytes that arrive are the same
+			chunk := []int{0, 0, 1, 2, 3, 7, 100, 255}[r.Choose("pam-socket-takes", 8)]
+			if chunk > 0 {
+				r.Count("fault:short-write")
+			}
+			cases = append(cases, fmt.Sprintf("E %s %s %d", hexs([]byte(u)), hexs([]byte(p)), chunk))
 			wants = append(wants, want)
 		}
 		ans, err := pamBatch(cases)
